@@ -1,1 +1,245 @@
+//! Generators of shard contents (the "model": plain maps of records) with hostile key spaces.
+use std::collections::BTreeMap;
 
+use mdb_shard::cas_structs::{CASChunkSequenceEntry, CASChunkSequenceHeader, MDBCASInfo};
+use mdb_shard::file_structs::{
+    FileDataSequenceEntry, FileDataSequenceHeader, FileMetadataExt, FileVerificationEntry, MDBFileInfo,
+};
+use mdb_shard::shard_in_memory::MDBInMemoryShard;
+use merklehash::MerkleHash;
+use xvcommon::Rng;
+
+#[derive(Clone, Default)]
+pub struct Model {
+    pub files: BTreeMap<MerkleHash, MDBFileInfo>,
+    pub cas: BTreeMap<MerkleHash, MDBCASInfo>,
+}
+
+#[derive(Clone, Copy, Debug, PartialEq, Eq)]
+pub enum KeySpace {
+    Uniform,
+    Clustered,
+    Extremes,
+    Collisions,
+}
+
+pub struct KeyGen {
+    pub space: KeySpace,
+    base: u64,
+    groups: Vec<(u64, usize)>, // (word0, remaining members)
+    pub max_group: usize,
+}
+
+impl KeyGen {
+    pub fn new(rng: &mut Rng, space: KeySpace, max_group: usize) -> Self {
+        KeyGen {
+            space,
+            base: rng.next_u64() & !0xfffff,
+            groups: Vec::new(),
+            max_group,
+        }
+    }
+    pub fn word0(&mut self, rng: &mut Rng) -> u64 {
+        match self.space {
+            KeySpace::Uniform => rng.next_u64(),
+            KeySpace::Clustered => self.base.wrapping_add(rng.below(1 << 20)),
+            KeySpace::Extremes => {
+                if rng.chance(1, 2) {
+                    *rng.pick(&[0u64, 1, 2, 1 << 63, (1 << 63) - 1, u64::MAX, u64::MAX - 1, u64::MAX - 2])
+                } else {
+                    rng.next_u64()
+                }
+            },
+            KeySpace::Collisions => {
+                // continue an open group with probability 1/2
+                if !self.groups.is_empty() && rng.chance(1, 2) {
+                    let i = rng.usize_below(self.groups.len());
+                    let w = self.groups[i].0;
+                    self.groups[i].1 -= 1;
+                    if self.groups[i].1 == 0 {
+                        self.groups.swap_remove(i);
+                    }
+                    w
+                } else {
+                    let w = if rng.chance(1, 6) { *rng.pick(&[0u64, u64::MAX, 1 << 63]) } else { rng.next_u64() };
+                    let size = rng.urange(2, self.max_group.max(2));
+                    if size > 1 {
+                        self.groups.push((w, size - 1));
+                    }
+                    w
+                }
+            },
+        }
+    }
+    pub fn hash(&mut self, rng: &mut Rng) -> MerkleHash {
+        loop {
+            let h = MerkleHash::from([self.word0(rng), rng.next_u64(), rng.next_u64(), rng.next_u64()]);
+            // all-ones is the bookend marker and all-zero the "no hash" marker; neither is a legal record key
+            if h != MerkleHash::from([!0u64; 4]) && h != MerkleHash::default() {
+                return h;
+            }
+        }
+    }
+}
+
+pub fn rand_hash(rng: &mut Rng) -> MerkleHash {
+    MerkleHash::from([rng.next_u64(), rng.next_u64(), rng.next_u64(), rng.next_u64()])
+}
+
+/// Make a hash sharing the 64-bit prefix with `h` but different otherwise.
+pub fn same_prefix(rng: &mut Rng, h: &MerkleHash) -> MerkleHash {
+    MerkleHash::from([h[0], rng.next_u64(), rng.next_u64(), rng.next_u64()])
+}
+
+pub struct GenParams {
+    pub n_cas: usize,
+    pub max_chunks_per_cas: usize,
+    pub n_files: usize,
+    pub cas_space: KeySpace,
+    pub chunk_space: KeySpace,
+    pub file_space: KeySpace,
+    /// max members of a truncated-prefix collision group for file / cas keys (<= 7) and chunk keys
+    pub max_group_keys: usize,
+    pub max_group_chunks: usize,
+    pub dup_chunks: bool,
+    pub flags: Option<(bool, bool)>,
+}
+
+pub fn gen_cas(rng: &mut Rng, hash: MerkleHash, n_chunks: usize, ck: &mut KeyGen, pool: &mut Vec<(MerkleHash, u32)>, dup: bool) -> MDBCASInfo {
+    let mut chunks = Vec::with_capacity(n_chunks);
+    let mut pos = 0u32;
+    // a xorb's unpacked size must fit the format's u32 fields (real xorbs are <= 64 MiB)
+    let max_len = (((1u64 << 31) / n_chunks.max(1) as u64).min(131072)).max(1);
+    for _ in 0..n_chunks {
+        let reuse = if dup && !pool.is_empty() && rng.chance(1, 5) { Some(*rng.pick(pool)) } else { None };
+        let (h, len) = if let Some(e) = reuse.filter(|e| (e.1 as u64) <= max_len) {
+            e
+        } else {
+            let e = (ck.hash(rng), rng.range(1, max_len) as u32);
+            if pool.len() < 512 {
+                pool.push(e);
+            }
+            e
+        };
+        chunks.push(CASChunkSequenceEntry::new(h, len, pos));
+        pos = pos.wrapping_add(len);
+    }
+    let mut metadata = CASChunkSequenceHeader::new(hash, n_chunks as u32, pos);
+    metadata.num_bytes_on_disk = rng.next_u32() >> 8;
+    MDBCASInfo { metadata, chunks }
+}
+
+pub fn gen_file(rng: &mut Rng, hash: MerkleHash, cas: &[&MDBCASInfo], flags: (bool, bool)) -> MDBFileInfo {
+    let n_seg = match rng.below(10) {
+        0 => 0,
+        1 => 1,
+        _ => rng.urange(1, 12),
+    };
+    let mut segments = Vec::new();
+    let mut verification = Vec::new();
+    for _ in 0..n_seg {
+        if !cas.is_empty() && rng.chance(4, 5) {
+            let c = *rng.pick(cas);
+            let n = c.chunks.len();
+            if n > 0 {
+                let a = rng.usize_below(n);
+                let b = rng.urange(a + 1, n);
+                let bytes: u32 = c.chunks[a..b].iter().map(|x| x.unpacked_segment_bytes).fold(0u32, |x, y| x.wrapping_add(y));
+                segments.push(FileDataSequenceEntry::new(c.metadata.cas_hash, bytes, a as u32, b as u32));
+                continue;
+            }
+        }
+        segments.push(FileDataSequenceEntry::new(rand_hash(rng), rng.next_u32() >> 4, 0u32, rng.range(1, 100) as u32));
+    }
+    if flags.0 {
+        for _ in 0..segments.len() {
+            verification.push(FileVerificationEntry::new(rand_hash(rng)));
+        }
+    }
+    let metadata_ext = if flags.1 { Some(FileMetadataExt::new(rand_hash(rng))) } else { None };
+    MDBFileInfo {
+        metadata: FileDataSequenceHeader::new(hash, segments.len(), flags.0, flags.1),
+        segments,
+        verification,
+        metadata_ext,
+    }
+}
+
+pub fn gen_model(rng: &mut Rng, p: &GenParams) -> Model {
+    let mut m = Model::default();
+    let mut cas_keys = KeyGen::new(rng, p.cas_space, p.max_group_keys);
+    let mut chunk_keys = KeyGen::new(rng, p.chunk_space, p.max_group_chunks);
+    let mut file_keys = KeyGen::new(rng, p.file_space, p.max_group_keys);
+    let mut pool = Vec::new();
+    // count of keys per truncated prefix must stay <= 7 for file / cas keys
+    let mut prefix_count: std::collections::HashMap<u64, usize> = Default::default();
+    for _ in 0..p.n_cas {
+        let mut h = cas_keys.hash(rng);
+        let mut tries = 0;
+        while m.cas.contains_key(&h) || *prefix_count.get(&h[0]).unwrap_or(&0) >= 7 {
+            h = if tries > 3 { rand_hash(rng) } else { cas_keys.hash(rng) };
+            tries += 1;
+        }
+        *prefix_count.entry(h[0]).or_insert(0) += 1;
+        let n_chunks = match rng.below(12) {
+            0 => 0,
+            1 => 1,
+            _ => rng.log_range(1, p.max_chunks_per_cas as u64) as usize,
+        };
+        let c = gen_cas(rng, h, n_chunks, &mut chunk_keys, &mut pool, p.dup_chunks);
+        m.cas.insert(h, c);
+    }
+    let cas_list: Vec<&MDBCASInfo> = m.cas.values().collect();
+    let mut prefix_count: std::collections::HashMap<u64, usize> = Default::default();
+    let mut files = BTreeMap::new();
+    for _ in 0..p.n_files {
+        let mut h = file_keys.hash(rng);
+        let mut tries = 0;
+        while files.contains_key(&h) || *prefix_count.get(&h[0]).unwrap_or(&0) >= 7 {
+            h = if tries > 3 { rand_hash(rng) } else { file_keys.hash(rng) };
+            tries += 1;
+        }
+        *prefix_count.entry(h[0]).or_insert(0) += 1;
+        let flags = p.flags.unwrap_or((rng.chance(1, 2), rng.chance(1, 2)));
+        files.insert(h, gen_file(rng, h, &cas_list, flags));
+    }
+    m.files = files;
+    m
+}
+
+pub fn to_mem(m: &Model) -> MDBInMemoryShard {
+    let mut s = MDBInMemoryShard::default();
+    for c in m.cas.values() {
+        s.add_cas_block(c.clone()).unwrap();
+    }
+    for f in m.files.values() {
+        s.add_file_reconstruction_info(f.clone()).unwrap();
+    }
+    s
+}
+
+pub fn rand_params(rng: &mut Rng, scale: usize) -> GenParams {
+    let spaces = [KeySpace::Uniform, KeySpace::Clustered, KeySpace::Extremes, KeySpace::Collisions];
+    let n_cas = match rng.below(8) {
+        0 => 0,
+        1 => 1,
+        _ => rng.log_range(1, (30 * scale) as u64) as usize,
+    };
+    let n_files = match rng.below(8) {
+        0 => 0,
+        1 => 1,
+        _ => rng.log_range(1, (60 * scale) as u64) as usize,
+    };
+    GenParams {
+        n_cas,
+        max_chunks_per_cas: *rng.pick(&[4usize, 40, 300, 1500]),
+        n_files,
+        cas_space: *rng.pick(&spaces),
+        chunk_space: *rng.pick(&spaces),
+        file_space: *rng.pick(&spaces),
+        max_group_keys: rng.urange(2, 7),
+        max_group_chunks: *rng.pick(&[2usize, 4, 7, 8, 12]),
+        dup_chunks: rng.chance(1, 2),
+        flags: if rng.chance(1, 3) { Some((rng.chance(1, 2), rng.chance(1, 2))) } else { None },
+    }
+}
